@@ -76,9 +76,9 @@ theorem woken_le (n : Nat) (ops : List Op) :
     (run { n := n } ops).woken.length ≤ (pendingPolled (run { n := n } ops)).length := by
   have hi := reachable_binv n ops
   have hc : WOK (run { n := n } ops).q (run { n := n } ops).woken :=
-    run_wok _ ops (init_binv n) ⟨by simp [owners], by simp, by simp⟩
+    run_wok _ ops (init_binv n) ⟨by simp [ownerIds], by simp, by simp⟩
   refine Nat.le_trans hc.length_le ?_
-  have := nodup_subset_length (owners (run { n := n } ops).q)
+  have := nodup_subset_length (ownerIds (run { n := n } ops).q)
     ((pendingPolled (run { n := n } ops)).map (·.id)) hc.nq (by
     intro g hg
     have hh : Ev.has (run { n := n } ops).q g = true := by
@@ -93,6 +93,6 @@ theorem woken_le (n : Nat) (ops : List Op) :
     have hnd : fu.pc ≠ .done := by
       intro h0; rw [h0] at hw; cases hw
     simp [pendingPolled, hfu, hp, hnd])
-  simpa [owners] using this
+  simpa [ownerIds] using this
 
 end ALock.Barrier
